@@ -766,10 +766,8 @@ package larking
 //@   ensures [exactly-once C18] viaInterceptor + direct == 1
 
 //@ func outPayload serves C18
-//@   requires len(payload) <= 4611686018427387904
-//@   ensures [payload-event C18] result != nil && result.Client == client && result.Length == len(payload) && result.WireLength == len(payload) + 5
+//@   ensures [payload-event C18] result != nil && result.Client == client && result.Length == len(payload) && (len(payload) <= 4611686018427387904 ==> result.WireLength == len(payload) + 5)
 //@   oracle result.Client == client && result.Length == len(payload) && result.WireLength == len(payload)+5
 //@ func inPayload serves C18
-//@   requires len(payload) <= 4611686018427387904
-//@   ensures [payload-event C18] result != nil && result.Client == client && result.Length == len(payload) && result.WireLength == len(payload) + 5
+//@   ensures [payload-event C18] result != nil && result.Client == client && result.Length == len(payload) && (len(payload) <= 4611686018427387904 ==> result.WireLength == len(payload) + 5)
 //@   oracle result.Client == client && result.Length == len(payload) && result.WireLength == len(payload)+5
